@@ -170,7 +170,12 @@ func ctlCase(tier string, idx int) (progCase, bool) {
 				{Lits: nil, Body: &hs.BlockExpr{B: hs.Blk(nil, hs.Println(hs.S("other")))}},
 			}})}
 		case "try":
+			// (at even levels the catch identifier is named like the local of f that is read after
+			// everything: it shadows the local inside the catch block only)
 			ev := fmt.Sprintf("e%d", i)
+			if i%2 == 0 {
+				ev = "loc"
+			}
 			return []hs.Stmt{hs.ES(&hs.Try{
 				Body:  hs.Blk(nil, wrap([]hs.Stmt{hs.Println(hs.S(a))}, hs.Println(hs.S(b)))...),
 				Var:   ev,
@@ -178,6 +183,9 @@ func ctlCase(tier string, idx int) (progCase, bool) {
 			})}
 		case "catch":
 			ev := fmt.Sprintf("e%d", i)
+			if i%2 == 0 {
+				ev = "loc"
+			}
 			return []hs.Stmt{hs.ES(&hs.Try{
 				Body:  hs.Blk(nil, hs.ES(hs.CallN("throw", sv("T%d", i)))),
 				Var:   ev,
